@@ -13,12 +13,19 @@ TECH = "Lean 4 theorems about a hand-written model + differential correspondence
 CLAIMED = {
     "C01": ("Theorems for all digit widths w>=2 and digit counts n>=1 (induction over the digit list): every overflowing/checked/strict/wrapping/saturating/carrying add, sub, neg, abs form, abs_diff, unsigned_abs and midpoint returns wrap(exact) with flag <-> not representable, saturating forms clamp to the side of the exact result, midpoint never panics in either build mode (61 theorems, Props/C01.lean).", TECH, "7 C01"),
     "C02": ("Theorems for all w, n: long_mul returns (a*b mod 2^BITS, a*b >= 2^BITS) by a row/column loop invariant; widening_mul/carrying_mul are exact (hi*2^BITS+lo = a*b (+c)) and chain; signed overflowing_mul = wrapS(a*b) with flag <-> not representable incl. MIN*-1 and x*MIN; all projections; `mul` panics iff debug assertions and overflow (22 theorems, Props/C02.lean).", TECH, "7 C02"),
-    "C03": ("Theorems for all w>=2, n>=1: digit::div_rem_wide and short division (div_rem_digit) are exact; the dispatch (zero / cmp / one-digit divisor) returns floor quotient and remainder; on top of the unsigned pair the signed truncating div/rem, euclid, floor, ceil, next_multiple_of/checked_next_multiple_of, every checked/overflowing/wrapping/saturating form, zero-divisor -> None/panic and the six MIN/-1 results, uniqueness of (q,r) (22 theorems, Props/C03.lean). The multi-digit Knuth-D path (basecase_div_rem) is proved relative to ONE named hypothesis `KnuthD_correct` (it holds outright for n = 1); that path is covered by the correspondence run with divisor shapes that make the q-hat corrections and the add-back fire, every case certified against exact Nat division.", TECH, "7 C03"),
+    "C03": ("Theorems for all w>=2, n>=1: digit::div_rem_wide and short division (div_rem_digit) are exact; the dispatch (zero / cmp / one-digit divisor) returns floor quotient and remainder; on top of the unsigned pair the signed truncating div/rem, euclid, floor, ceil, next_multiple_of/checked_next_multiple_of, every checked/overflowing/wrapping/saturating form, zero-divisor -> None/panic and the six MIN/-1 results, uniqueness of (q,r) (22 theorems, Props/C03.lean). Knuth's Algorithm D (basecase_div_rem) is proved correct as coded for every digit width and length (`knuthD_correct`: q-hat bounds from Theorem A plus the two-digit test, multiply-subtract borrow, add-back, loop invariant, normalising shifts), so no hypothesis is left open. The correspondence generator additionally finds operand pairs that take the add-back branch at quotient positions j>=1 by exact simulation (gen/knuth.py).", TECH, "7 C03"),
     "C05": ("Theorems for all w>=1, n>=1 and every amount: shl = x*2^s mod 2^BITS, shr = floor(x/2^s) (sign-propagating for signed), checked None / strict panic / overflowing flag <-> s >= BITS, unbounded forms, power-of-two widths use s mod BITS; rotate_left/right are the cyclic rotation by n mod BITS for EVERY width and inverse to each other (37 theorems, Props/C05.lean). The rotation theorem holds because of the fix: commit a393892 in /repo; the check found the defect on the unchanged tree.", TECH, "7 C05"),
     "C06": ("Theorems for all w (power-of-two digit widths where the code uses shifts/masks for index arithmetic), n>=1: and/or/xor/not per bit, count_ones/zeros, leading/trailing zeros/ones, bits, bit/set_bit with their exact panic range, power_of_two, is_power_of_two, checked/wrapping/next_power_of_two (per build mode), reverse_bits and swap_bytes as bit/byte reversals and involutions (33 theorems, Props/C06.lean).", TECH, "7 C06"),
     "C07": ("Theorems for all w>=1, n>=1: cmp = compare of the denoted values (unsigned and two's complement), eq <-> identical digit arrays <-> equal values (canonical representation), lt/le/gt/ge/min/max/clamp (panic iff min > max), signum/is_positive/is_negative; hashing is modelled as a function of the digit array, so hash congruence is by injectivity (25 theorems, Props/C07.lean).", TECH, "7 C07"),
+    "C09": ("Theorems: one per cast code path (same digit type up/down, signed source padding, cross-digit split and pack, primitive <-> bnum, bool, char): the result is well formed, its value is the source value reduced modulo 2^(target BITS) (zero-/sign-extension and truncation are corollaries), never panics, for any digit widths with w1 | w2 or w2 | w1; cast_signed/cast_unsigned/to_bits/from_bits are the identity on the pattern (21 theorems, Props/C09.lean).", TECH, "7 C09"),
+    "C10": ("Theorems (unsigned and signed): from_str_radix/FromStr/parse_bytes return exactly Spec.expectParse: sound (Ok only for grammatical strings, with the denoted value), complete with ANY number of leading zeros, PosOverflow/NegOverflow by sign, Empty, lone sign and short invalid strings give InvalidDigit, never accept an invalid character, panic iff the radix is out of range; from_radix_be/le = Some iff every digit < radix and the value fits (31 theorems, Props/C10.lean). Completeness for radices 2/4/16 holds because of the fix: commit e0b6218 in /repo; the check found the defect on the unchanged tree.", TECH, "7 C10"),
+    "C11": ("Theorems: to_radix_le/be are the canonical digit sequences for every radix 2..=256 through all five code paths (byte copy, exact bit slicing, the inexact bit slicer for 8/32/64/128, division by radix_base_half), to_str_radix is the canonical lowercase numeral with '-' for negatives, parsing the output returns the original value (str, be, le), panic iff the radix is out of range (16 theorems, Props/C11.lean).", TECH, "7 C11"),
+    "C12": ("Theorems: for all 8 formatting traits, both signednesses and every flag combination the model hands pad_integral exactly the triple (is_nonnegative, prefix, content) that core computes for a primitive of the same value: hex/binary content = positional numeral of the two's-complement pattern (interior zero padding lemma), octal/decimal via the proved to_str_radix, exponent form d.ddde<k> characterised (trailing zeros trimmed, k = floor(log10)), signed Display/Debug/Exp via the sign and |value| (20 theorems, Props/C12.lean). PARTIAL by construction: core's Formatter::pad_integral is modelled after its source, not verified; it is validated against rustc's own formatting of primitives on every run at 8..128 bits (post hook) for every flag combination.", TECH, "7 C12"),
+    "C13": ("Theorems: TryFrom bnum->primitive, BTryFrom bnum->bnum (all four sign combinations, any digit types), TryFrom/From primitive->bnum, bool, char: Ok iff the value is representable, value preserved, never panics for in-scope pairs; from_digits/digits/From<[digit;N]> round trips, from_digit (26 theorems, Props/C13.lean). Known finding F6 (From<uK> into a signed bnum of exactly K bits wraps) is recorded: the theorem for that family carries K < BITS and a proved counterexample.", TECH, "7 C13"),
     "C14": ("Theorems for every float format satisfying F.Valid (binary32 and binary64 are instances), every width and both build modes: int -> float returns the encoding of rne_p(v) (proved to be THE nearest p-bit value, ties to even mantissa, exact when it fits) or +infinity on overflow, sign-symmetric for signed sources, never panics; float -> int maps NaN to 0, truncates toward zero and saturates at MIN/MAX (unsigned: negatives to 0, infinities to the bounds) (26 theorems, Props/C14.lean). Floats are bit patterns; the bnum-integer operations inside the generic cast code are composed at value level (their digit-level proofs are C05/C06). The full float->int theorem holds because of the fix: commit e77dd54 in /repo; the check found the defect on the unchanged tree.", TECH, "7 C14"),
     "C15": ("Theorems for every digit byte width 2^k, n>=1 and both target endiannesses: from_be_slice/from_le_slice return Some(v) iff the byte string denotes a representable value (unsigned and two's complement with sign from the most significant byte), zero/sign extension of short slices, long slices accepted iff the excess is pure padding, never panic for any length; to_be/to_le/from_be/from_le swap exactly when the target differs; to/from_{be,le,ne}_bytes are exact inverses producing the two's-complement bytes (35 theorems, Props/C15.lean). The *_bytes methods are exercised through a `cargo +nightly --features nightly` harness build.", TECH, "7 C15"),
+    "C17": ("Theorems: every trait form (by value / by reference x4, op-assign, assign by ref) of Add Sub Mul Div Rem BitAnd BitOr BitXor Neg Not equals the inherent method as an Outcome (value AND panic), for both build modes; shifts by each of the twelve primitive amount types: debug panics iff k<0 or k>=BITS, release = wrapping shift by k mod 2^32; bnum-typed amounts are range-checked in both modes and agree with the inherent shift below BITS; Sum/Product are the left folds from ZERO/ONE with the fold's panic outcome; Default, PartialOrd/Ord/PartialEq, FromStr, Add/Div/Rem<digit> (40 theorems, Props/C17.lean). The model of this glue code is hand-written (each impl its own definition mirroring the delegation chain); a changed delegate is caught by the correspondence run, which calls every impl in both build modes.", TECH, "7 C17"),
+    "C19": ("Theorems: FromPrimitive::from_{u8..i128,usize,isize} = Some(v) iff v is representable, for every width including targets narrower than the source, never panics; from_f32/from_f64 = Some(trunc f) for finite in-range non-negative-for-unsigned floats and None for NaN/inf/out-of-range; ToPrimitive::to_* = Some iff the value fits (to_f32/to_f64 always Some of the C14 cast); AsPrimitive::as_ = the As cast (24 theorems, Props/C19.lean). num_traits' provided methods (from_u8 -> from_u64 ...) are modelled at value level (trusted).", TECH, "7 C19"),
     "C20": ("Theorems: every sample_single(_inclusive)/Uniform::new(_inclusive)/gen_range result lies in the requested range (signed ranges through the unsigned twin), panic iff the range is empty, accepted RNG words map onto the range with the same number of preimages per value for BOTH zone formulas, Standard is the little-endian value of the next BYTES stream bytes (surjective), fill = generating each element in turn (35 theorems, Props/C20.lean). The RNG is a scripted byte stream; rand's own plumbing (Rng::gen/fill/gen_range down to try_fill_bytes) is modelled, not verified.", TECH, "7 C20"),
 }
 PENDING = {}
